@@ -13,6 +13,14 @@ from concurrent.futures import ThreadPoolExecutor
 ENGINE = os.path.dirname(os.path.abspath(__file__))
 VERIF = os.path.dirname(ENGINE)
 REPO = os.environ.get('VERIF_REPO', '/repo')
+_SCRATCH = []      # scratch directories and solver process groups of this run: cleaned up on SIGTERM / SIGINT as well
+_PGIDS = set()
+def _on_term(signum, frame):
+    for pg in list(_PGIDS):
+        try: os.killpg(pg, signal.SIGKILL)
+        except Exception: pass
+    for d_ in _SCRATCH: shutil.rmtree(d_, ignore_errors=True)
+    os._exit(128 + signum)
 MODELS = os.path.join(ENGINE, 'models')
 NCPU = os.cpu_count() or 4
 HOOK_DEFINE = 'BITSERIALIZER_VERIF'
@@ -424,9 +432,13 @@ def run_race(o, d, cap, witness=False):
         cmd = cbmc_cmd(o, d, b, witness)
         outp = os.path.join(d, 'cbmc_%s_%s%s.out' % (o['name'], b, '_w' if witness else ''))
         f = open(outp, 'w')
-        pre = 'ulimit -v %d; export PATH=%s:$PATH; exec ' % (o.get('mem_gb', 12) * 1024 * 1024, os.path.join(ENGINE, 'shim'))
+        # TMPDIR: CBMC writes the CNF / SMT2 problem for external solvers to a temp file (up to > 1 GB); a back end that loses the
+        # race is killed and would leave it behind - inside the scratch directory it is removed with it
+        tmpd = os.path.join(d, 'tmp_%s_%s' % (o['name'], b)); os.makedirs(tmpd, exist_ok=True)
+        pre = 'ulimit -v %d; export TMPDIR=%s PATH=%s:$PATH; exec ' % (o.get('mem_gb', 12) * 1024 * 1024, tmpd, os.path.join(ENGINE, 'shim'))
         p = subprocess.Popen(['bash', '-c', pre + ' '.join("'%s'" % c for c in cmd) + ' 2>&1'], stdout=f, stderr=subprocess.STDOUT,
                              preexec_fn=os.setsid)
+        _PGIDS.add(p.pid)
         procs.append((b, p, outp, f))
     winner = None
     try:
@@ -447,7 +459,10 @@ def run_race(o, d, cap, witness=False):
             if p.poll() is None:
                 try: os.killpg(p.pid, signal.SIGKILL)
                 except Exception: pass
+                try: p.wait(timeout=10)
+                except Exception: pass
             f.close()
+            shutil.rmtree(os.path.join(d, 'tmp_%s_%s' % (o['name'], b)), ignore_errors=True)
     el = time.time() - t0
     if winner:
         b, r, out = winner
@@ -480,6 +495,7 @@ def check(prop, tier, only=None, keep=False, seed=0):
     hdir = os.path.join(VERIF, 'harness')
     files = sorted(f for f in os.listdir(hdir) if (f.endswith('.cpp') or f.endswith('.gen.py')) and f.startswith(prop + '_'))
     scratch = tempfile.mkdtemp(prefix='verif_%s_' % prop)
+    if not keep: _SCRATCH.append(scratch)
     findings = [f for f in load_findings() if f['property'] == prop]
     results = []; violations = []; engine_errors = []; known_printed = []
     tvs = []
@@ -706,6 +722,7 @@ def main():
         elif args[i] == '--keep': keep = True; i += 1
         else: i += 1
     seed = int(os.environ.get('VERIF_SEED', '0') or 0)
+    signal.signal(signal.SIGTERM, _on_term); signal.signal(signal.SIGINT, _on_term)
     if cmd == 'check':
         return check(prop, tier, only, keep, seed)
     if cmd == 'replay':
